@@ -65,6 +65,10 @@ CHECKS = {
    text="Product of decay cards (6 spin families with integer/half-integer spins, parity violation, restricted final-state helicities, all chain subsets, alternative resonance spin-parities, a second resonance in a slot; 3 identical-particle families with default and centre-of-mass alignment) x Dalitz-lattice events in two generic orientations x a finite set of Lorentz transformations (cube and Euler rotations, boosts up to beta=0.99 in 8 directions, rotation o boost in both orders, spatial inversion, exchange of identical particles); all transformed copies in one evaluation per card; density(g.x) = density(x), finite and non-negative. Edge alphabet (momentum exactly along z, collinear boundary): finite and non-negative only.",
    note="Lattice events only; a restricted helicity list of the parent is a polarised parent and is excluded; align_ref=center_mass is used only with center_mass=True. Known finding: identical particles with spin and default alignment.",
    technique="bounded-exhaustive product enumeration of decay cards x event lattices x a finite set of group elements"),
+ "C02": dict(level="exploration", ref="4-C02",
+   text="Every card with spinning final-state particles (incl. spin 1/2, massless restricted-helicity photon) and >= 2 chains (all chain subsets incl. two of three topologies, second resonance in a slot) x ALL permutations of the chain list x option tuples of (align_ref, random_z, center_mass, only_left_angle) (all 16 for the declared order; quick: 7 for the other orders) x events with the parent at rest and moving (beta = 0.6); density equals the reference card's (declared order, defaults) after copying all parameters by name.",
+   note="align_ref=center_mass with a moving parent only together with center_mass=True (usage precondition). Known finding: restricted helicity list + align_ref=center_mass.",
+   technique="bounded-exhaustive enumeration of chain permutations x option tuples x frames with a differential oracle"),
 }
 
 NA_REASON = "check not built yet in this round (planned in DESIGN.md section 4)"
